@@ -69,7 +69,13 @@ type c28Case struct {
 	InitSeq  *uint16     `json:"init_sequence_number"`
 	Samples  []c28Sample `json:"samples,omitempty"`
 	Periodic string      `json:"periodic,omitempty"`
+	Binding  string      `json:"binding,omitempty"` // "" = one context; see c28Bindings
 }
+
+// c28Bindings are the ways the track is bound besides "one context, once": the usual fan-out of one track to
+// two senders (both bound before the first sample / the second bound after the first sample), and a context
+// that is unbound and bound again before writing.
+var c28Bindings = []string{"two", "second-after-first-sample", "rebound"}
 
 var c28Billion = big.NewInt(1_000_000_000)
 
@@ -207,7 +213,7 @@ func TestVerifC28(t *testing.T) {
 	// millions of short-lived tracks: with the default GC pacing (4 MB minimum heap) the collector runs
 	// almost continuously; let the heap grow to ~100 MB between cycles instead
 	defer debug.SetGCPercent(debug.SetGCPercent(2500))
-	c.Rule("cases = codec/clock rate {PCMU 8000, Opus 48000, VP8 90000} x initial (timestamp, sequence number) {(0,0), (2^32-2, 65534), not configured} x every sample sequence up to length 3 (thorough: length 4 for the wrap-around start) over duration {0, 1 tick, 1/3 tick, 20 ms, 33.333333 ms, 1 s} x size {1, 1200, 3000 bytes} x PrevDroppedPackets {0,1,3} (a second, shorter product adds empty samples; sequences up to length 2 use the codec's own payloader, the longer ones a zero-copy MTU splitter installed through WithPayloader); plus periodic runs of 10^4 (thorough 10^5) samples of one fractional-tick duration with and without periodic drops. Each case runs on a fresh TrackLocalStaticSample bound to a recording writer; a class is non-trivial when packets were recorded")
+	c.Rule("cases = codec/clock rate {PCMU 8000, Opus 48000, VP8 90000} x initial (timestamp, sequence number) {(0,0), (2^32-2, 65534), not configured} x every sample sequence up to length 3 (thorough: length 4 for the wrap-around start) over duration {0, 1 tick, 1/3 tick, 20 ms, 33.333333 ms, 1 s} x size {1, 1200, 3000 bytes} x PrevDroppedPackets {0,1,3} (a second, shorter product adds empty samples; sequences up to length 2 use the codec's own payloader, the longer ones a zero-copy MTU splitter installed through WithPayloader); plus periodic runs of 10^4 (thorough 10^5) samples of one fractional-tick duration with and without periodic drops. Each case runs on a fresh TrackLocalStaticSample bound to a recording writer; the sequences up to length 2 (thorough 3) run again on tracks bound to two contexts (both before the first sample / the second after the first sample: both writers must record the same packets) and on a track whose context was unbound and bound again; a class is non-trivial when packets were recorded")
 	c.Assume("the duration that corresponds to N dropped packets is N times the duration of the sample that reports them (as the statement's 'corresponding duration')")
 	c.Assume("nothing is demanded about the very first sequence number (the statement speaks of increments only)")
 
@@ -229,7 +235,14 @@ func TestVerifC28(t *testing.T) {
 	}
 
 	// run writes the samples to a fresh track and returns what the writer saw.
+	var runB func(cd c28Codec, in initCfg, splitter bool, n int, sampleAt func(i int) c28Sample, binding string) ([]c28Pkt, []c28Pkt)
 	run := func(cd c28Codec, in initCfg, splitter bool, n int, sampleAt func(i int) c28Sample) []c28Pkt {
+		first, _ := runB(cd, in, splitter, n, sampleAt, "")
+
+		return first
+	}
+	// runB: as run, with a binding shape; returns what the first and (if any) the second writer saw.
+	runB = func(cd c28Codec, in initCfg, splitter bool, n int, sampleAt func(i int) c28Sample, binding string) ([]c28Pkt, []c28Pkt) {
 		var opts []func(*TrackLocalStaticRTP)
 		if splitter {
 			opts = append(opts, WithPayloader(func(RTPCodecCapability) (rtp.Payloader, error) { return c28Splitter{}, nil }))
@@ -252,16 +265,39 @@ func TestVerifC28(t *testing.T) {
 		if _, err := track.Bind(ctx); err != nil {
 			vkit.Fatalf(t, "Bind: %v", err)
 		}
+		w2 := &c28Writer{cur: -1}
+		ctx2 := &baseTrackLocalContext{
+			id: "ctx2", ssrc: 0x5678, writeStream: w2,
+			params: RTPParameters{Codecs: []RTPCodecParameters{{RTPCodecCapability: cd.cap, PayloadType: 100}}},
+		}
+		switch binding {
+		case "two":
+			if _, err := track.Bind(ctx2); err != nil {
+				vkit.Fatalf(t, "Bind (second context): %v", err)
+			}
+		case "rebound":
+			if err := track.Unbind(ctx); err != nil {
+				vkit.Fatalf(t, "Unbind: %v", err)
+			}
+			if _, err := track.Bind(ctx); err != nil {
+				vkit.Fatalf(t, "Bind (again): %v", err)
+			}
+		}
 		for i := 0; i < n; i++ {
 			s := sampleAt(i)
-			w.cur = i
+			w.cur, w2.cur = i, i
 			if err := track.WriteSample(media.Sample{Data: payload[:s.Size], Duration: time.Duration(s.DurNs), PrevDroppedPackets: s.Dropped}); err != nil {
 				vkit.Fatalf(t, "WriteSample: %v", err)
 			}
+			if i == 0 && binding == "second-after-first-sample" {
+				if _, err := track.Bind(ctx2); err != nil {
+					vkit.Fatalf(t, "Bind (second context, after the first sample): %v", err)
+				}
+			}
 		}
-		w.cur = -1
+		w.cur, w2.cur = -1, -1
 
-		return w.pkts
+		return w.pkts, w2.pkts
 	}
 
 	durations := func(rate uint32) []int64 {
@@ -338,6 +374,72 @@ func TestVerifC28(t *testing.T) {
 		product("seq4", full, 4, maxLen, inits[1:2], true)
 	}
 	product("seq+empty", []int{0, 1, 1200, 3000}, 1, maxLen-1, inits[:2], true)
+
+	// ---- part 1b: the same sequences (length <= 2, thorough 3) on tracks bound in other ways ----
+	bindLen := c.Pick(2, 3)
+	c.Set("binding_shapes", c28Bindings)
+	for _, binding := range c28Bindings {
+		for _, cd := range codecs {
+			durs := durations(cd.cap.ClockRate)
+			alpha := len(durs) * len(full) * len(dropped)
+			decode := func(v int) c28Sample {
+				return c28Sample{DurNs: durs[v/(len(full)*len(dropped))], Size: full[v/len(dropped)%len(full)], Dropped: dropped[v%len(dropped)]}
+			}
+			for ii, in := range inits {
+				for l := 1; l <= bindLen; l++ {
+					dims := make([]int, l)
+					for i := range dims {
+						dims[i] = alpha
+					}
+					vkit.Parallel(vkit.ProductSize(dims...), func(idx int) {
+						seq := vkit.ProductIndex(idx, dims...)
+						at := func(i int) c28Sample { return decode(seq[i]) }
+						cs := func() c28Case {
+							out := c28Case{Codec: cd.name, Rate: cd.cap.ClockRate, InitTS: in.ts, InitSeq: in.seq, Binding: binding}
+							for i := range seq {
+								out.Samples = append(out.Samples, at(i))
+							}
+
+							return out
+						}
+						c.Eval()
+						var first, second []c28Pkt
+						func() {
+							defer func() {
+								if r := recover(); r != nil {
+									c.Violation("panic|"+vkit.PanicSite(), fmt.Sprintf("panic in code under test: %v (case %s)", r, vkit.Short(cs())), cs())
+								}
+							}()
+							first, second = runB(cd, in, true, l, at, binding)
+						}()
+						if kind, text := c28Check(cd.cap.ClockRate, in.ts, l, at, first); kind != "" {
+							c.Violation("binding="+binding+"|"+kind, text+" — case "+vkit.Short(cs()), cs())
+						}
+						if binding != "rebound" {
+							// the second context gets exactly the packets of the samples written while it was bound
+							var want []c28Pkt
+							for _, p := range first {
+								if binding == "two" || p.sample >= 1 {
+									want = append(want, p)
+								}
+							}
+							same := len(want) == len(second)
+							for k := 0; same && k < len(want); k++ {
+								same = want[k] == second[k]
+							}
+							if !same {
+								c.Violation("binding="+binding+"|second-context-sees-other-packets",
+									fmt.Sprintf("the second bound context recorded %d packets that are not the %d packets the first one recorded for the same samples — case %s", len(second), len(want), vkit.Short(cs())), cs())
+							}
+						}
+						if len(first) > 0 && l == bindLen && idx%97 == 0 {
+							c.Distinct(fmt.Sprintf("binding=%s|%s|init=%d|len=%d|second-writer-packets=%v", binding, cd.name, ii, l, len(second) > 0))
+						}
+					})
+				}
+			}
+		}
+	}
 
 	// ---- part 2: long periodic runs (drift) ----
 	long := c.Pick(10_000, 100_000)
